@@ -338,6 +338,28 @@ fn strict_check(start: Start, b: &[u8], r: &RefOut, ctx: &mut Ctx) -> Result<(),
                 if p.link_exts.as_slice() != qe.as_slice() {
                     diffs.push(Diff { what: "link_exts".into(), detail: format!("{:?} vs slicing {:?}", p.link_exts, qe) });
                 }
+                {
+                    // vlan() / vlan_ids(): the first two VLAN headers / all VLAN ids, through both families
+                    let pv = p.vlan();
+                    let qv = q.vlan().map(|v| match v {
+                        VlanSlice::SingleVlan(s) => VlanHeader::Single(s.to_header()),
+                        VlanSlice::DoubleVlan(d) => VlanHeader::Double(DoubleVlanHeader { outer: d.outer.to_header(), inner: d.inner.to_header() }),
+                    });
+                    let want_ids: Vec<u16> = qe.iter().filter_map(|e| if let LinkExtHeader::Vlan(v) = e { Some(v.vlan_id.value()) } else { None }).collect();
+                    let want_v = {
+                        let mut vs = qe.iter().filter_map(|e| if let LinkExtHeader::Vlan(v) = e { Some(v.clone()) } else { None });
+                        match (vs.next(), vs.next()) {
+                            (Some(a), Some(b2)) => Some(VlanHeader::Double(DoubleVlanHeader { outer: a, inner: b2 })),
+                            (Some(a), None) => Some(VlanHeader::Single(a)),
+                            _ => None,
+                        }
+                    };
+                    let pids: Vec<u16> = p.vlan_ids().iter().map(|v| v.value()).collect();
+                    let qids: Vec<u16> = q.vlan_ids().iter().map(|v| v.value()).collect();
+                    if pv != qv || pv != want_v || pids != qids || pids != want_ids {
+                        diffs.push(Diff { what: "vlan-helpers".into(), detail: format!("vlan() {:?} vs slicing {:?} (headers say {:?}); vlan_ids() {:?} vs slicing {:?} (headers say {:?})", pv, qv, want_v, pids, qids, want_ids) });
+                    }
+                }
                 let qn = net_from_slice(&q.net);
                 if p.net != qn {
                     diffs.push(Diff { what: "net".into(), detail: format!("{:?} vs slicing {:?}", p.net, qn) });
@@ -447,6 +469,28 @@ fn lax_check(start: Start, b: &[u8], rl: &RefOut, ctx: &mut Ctx) -> Result<(), F
                 let qe: Vec<LinkExtHeader> = q.link_exts.iter().map(|e| e.to_header()).collect();
                 if p.link_exts.as_slice() != qe.as_slice() {
                     diffs.push(Diff { what: "link_exts".into(), detail: format!("{:?} vs slicing {:?}", p.link_exts, qe) });
+                }
+                {
+                    // vlan() / vlan_ids(): the first two VLAN headers / all VLAN ids, through both families
+                    let pv = p.vlan();
+                    let qv = q.vlan().map(|v| match v {
+                        VlanSlice::SingleVlan(s) => VlanHeader::Single(s.to_header()),
+                        VlanSlice::DoubleVlan(d) => VlanHeader::Double(DoubleVlanHeader { outer: d.outer.to_header(), inner: d.inner.to_header() }),
+                    });
+                    let want_ids: Vec<u16> = qe.iter().filter_map(|e| if let LinkExtHeader::Vlan(v) = e { Some(v.vlan_id.value()) } else { None }).collect();
+                    let want_v = {
+                        let mut vs = qe.iter().filter_map(|e| if let LinkExtHeader::Vlan(v) = e { Some(v.clone()) } else { None });
+                        match (vs.next(), vs.next()) {
+                            (Some(a), Some(b2)) => Some(VlanHeader::Double(DoubleVlanHeader { outer: a, inner: b2 })),
+                            (Some(a), None) => Some(VlanHeader::Single(a)),
+                            _ => None,
+                        }
+                    };
+                    let pids: Vec<u16> = p.vlan_ids().iter().map(|v| v.value()).collect();
+                    let qids: Vec<u16> = q.vlan_ids().iter().map(|v| v.value()).collect();
+                    if pv != qv || pv != want_v || pids != qids || pids != want_ids {
+                        diffs.push(Diff { what: "vlan-helpers".into(), detail: format!("vlan() {:?} vs slicing {:?} (headers say {:?}); vlan_ids() {:?} vs slicing {:?} (headers say {:?})", pv, qv, want_v, pids, qids, want_ids) });
+                    }
                 }
                 let qn = lax_net_from_slice(&q.net);
                 if p.net != qn {
